@@ -62,12 +62,27 @@ def handleOverlap (n chunk : Nat) : String :=
   let idxErr := (slices.map (fun p => (p.2.zipIdx p.1).countP (fun q => q.1 != q.2))).sum
   s!"handed={got.length} exact={if got == List.range n then 1 else 0} index_errors={idxErr}"
 
+/-- one matcher run per appended batch (query matching everything): the runs' takes hand out `range n` exactly once
+    (`c15_takes_partition`), and every item is identified by its position in the source (`session_item_index`): the summary
+    the harness computes for the real `Matcher::run` -/
+def handleMatcherRuns (batches : List Nat) : String :=
+  let rec ops (next : Nat) : List Nat → List (Op Nat)
+    | [] => []
+    | k :: ks => Op.append (List.range' next k) :: Op.take :: ops (next + k) ks
+  let outs := (run ({ nres := 0 } : Pool Nat) (ops 0 batches)).2
+  let slices := outs.filterMap (fun o => match o with | .slice s xs => some (s, xs) | _ => none)
+  let got := slices.flatMap (·.2)
+  let idxErr := (slices.map (fun p => (p.2.zipIdx p.1).countP (fun q => q.1 != q.2))).sum
+  let n := batches.sum
+  s!"matched={got.length} exact={if got == List.range n then 1 else 0} index_errors={idxErr}"
+
 def answer (case impl : String) : String :=
   let m :=
     match case.splitOn "|" with
     | ["P", n, ops] => handlePool (n.toNat?.getD 0) ops
     | ["L", t, k] => handleLock (t.toNat?.getD 0) (k.toNat?.getD 0)
     | ["X", n, c] => handleOverlap (n.toNat?.getD 0) (c.toNat?.getD 1)
+    | ["M", bs] => handleMatcherRuns (decNats bs)
     | _ => "error:bad-case"
   m ++ "\t" ++ (if m.startsWith "error" then "error" else if impl == m then "ok" else "bad:differs-from-sequential-pool-spec")
 
